@@ -50,6 +50,8 @@ pub fn run(tier: &str, seed: u64, only: Option<&str>) -> Run {
     decode_model_cases(&mut run, seed, thorough, only);
     control_point_cases(&mut run, seed, thorough, only);
     wellformed_cases(&mut run, seed, thorough, only);
+    #[cfg(feature = "p06")]
+    crate::c06b::cases(&mut run, seed, thorough, only);
     run
 }
 
